@@ -2,7 +2,7 @@
    The grammar model (chumsky 0.9 combinators of parsers/rfc2822.rs) and Display are in
    Model/Mailbox.v; the header map in Model/Headers.v. *)
 From LV Require Import Base.Bytes Base.Utf8 Base.Res Model.Address Model.Mailbox Model.HeaderEnc Model.Headers
-  Proofs.MailboxProofs Proofs.HeadersProofs.
+  Proofs.MailboxProofs Proofs.MailboxListProofs Proofs.HeadersProofs.
 
 (* ---- mailboxes: Display then FromStr ---- *)
 (* An address of the simple form  run(.run)* @ run(.run)*  (runs of atext characters) without a
@@ -31,6 +31,15 @@ Theorem C17_mailbox_rt_quoted : forall (n : ustr) (items : list (ustr * N)) (a :
   exists s, show_mailbox (mkMb (Some n) (sa_str a)) = Some s /\
             parse_mailbox_raw s = Some (Some (quoted_read items), (sa_user a, sa_domain a)).
 Proof. exact show_parse_quoted. Qed.
+
+(* Lists: any number of mailboxes without display name (addresses as above, accepted unchanged by the address
+   constructor under the given oracles), written by Mailboxes' Display (", " between them) and read by the
+   list grammar + FromStr, give back exactly the same list. *)
+Theorem C17_mailboxes_rt_bare : forall alnum idna ip_ok (L : list mailbox),
+  Forall (Pbare alnum idna ip_ok) L ->
+  exists v, show_mailboxes L = Some v /\
+  exists L', mailboxes_from_str alnum idna ip_ok v = Ok L' /\ L' = L.
+Proof. exact list_roundtrip. Qed.
 
 (* FromStr = grammar, then Address::new on the two parts (any oracles) *)
 Theorem C17_from_str_of_raw : forall alnum idna ip_ok s n u d a,
@@ -69,6 +78,7 @@ Qed.
 Print Assumptions C17_mailbox_rt_noname.
 Print Assumptions C17_mailbox_rt_plain.
 Print Assumptions C17_mailbox_rt_quoted.
+Print Assumptions C17_mailboxes_rt_bare.
 Print Assumptions C17_from_str_of_raw.
 Print Assumptions C17_get_after_set.
 Print Assumptions C17_get_after_remove.
